@@ -122,6 +122,11 @@ func (d *c01) peerAct(o *lObj) {
 		d.peerConnect(o)
 		return
 	case lkPacket, lkPeer:
+		if w.Chance(1, 6) && o.rawFd > 0 && !o.closed {
+			// announced readable, nothing to read (select(2) BUGS): a deferred read must simply stay pending
+			w.K.UDPSpurious(o.rawFd)
+			return
+		}
 		d.peerDatagram(o, w.Pick(8, 1, 100, 1400))
 		return
 	case lkRegular:
